@@ -86,6 +86,11 @@ def run(out, tier, seed):
 
 def replay(out, path):
     d = json.load(open(path))["detail"]
+    if d.get("generator"):
+        # a case of the scale family: rendered again from (shape, n)
+        ws_common.SCALE = [d["generator"]]
+        scale_family(out)
+        return
     mism, summary, _ = ws_common.sweep([d["case"]], "c10-replay")
     for r in mism:
         if r["prop"] == "C10":
